@@ -429,47 +429,5 @@ func c08Latest(e *Env) {
 	r.Check(okPers && nPers > 0, "GetLatestStatus: a persisted status is returned only after CorrectRunningStatus", e.Pos(fn.Pos()),
 		"a run whose process died is reported as still running (the persisted `running` is returned uncorrected)")
 
-	r.Rule("C08.correct-table", "DCS", "CorrectRunningStatus: running→failed and nothing else", 1)
-	cr := e.Fn("internal/persistence/model", "(*Status).CorrectRunningStatus")
-	if cr == nil {
-		return
-	}
-	_, ss := e.EnumOf(schedRel, "Status")
-	n := 0
-	for _, b := range cr.Blocks {
-		for _, in := range b.Instrs {
-			st, ok := in.(*ssa.Store)
-			if !ok {
-				continue
-			}
-			fa, ok := st.Addr.(*ssa.FieldAddr)
-			if !ok {
-				continue
-			}
-			field := ir.FieldNameOf(fa.X.Type(), fa.Field)
-			lits := e.DCS(st)
-			underRunning := false
-			for _, l := range lits {
-				if l.Kind == "cmp" && l.Op == token.EQL && e.IsFieldRead(l.X, nil, "Status") {
-					if k, isC := ir.ConstInt(l.Y); isC && k == ConstVal(ss, "StatusRunning") {
-						underRunning = true
-					}
-				}
-			}
-			switch field {
-			case "Status":
-				n++
-				k, isC := ir.ConstInt(st.Val)
-				r.Check(underRunning && isC && k == ConstVal(ss, "StatusError"), "CorrectRunningStatus: Status := failed only under Status == running", e.InstrPos(st),
-					"the correction relabels something other than a stale `running`, or relabels it as something other than failed (a run cut short must count as failed, never as finished)", e.FactsStr("dominating conditions: ", lits))
-			case "StatusText":
-				r.Check(underRunning, "CorrectRunningStatus: StatusText changed only with the status", e.InstrPos(st), "")
-			default:
-				r.Bad("CorrectRunningStatus: writes "+field, e.InstrPos(st), "the correction changes a field other than the status label")
-			}
-		}
-	}
-	if n == 0 {
-		r.Bad("CorrectRunningStatus: Status := failed only under Status == running", e.Pos(cr.Pos()), "the correction no longer relabels a stale running status")
-	}
+	cCorrectTable(e, "C08.correct-table")
 }
